@@ -382,9 +382,17 @@ def _concrete_restart(V, driver, table, n, info, nsteps=6):
 
     with tempfile.TemporaryDirectory() as td:
         path = os.path.join(td, "restart.json")
+        def labels_of(mc_):
+            out = []
+            for nm, st_ in mc_.moves.items():
+                for m_ in getattr(st_.move, "moves", [st_.move]):
+                    if hasattr(m_, "labels"):
+                        out.append((nm, [int(x) for x in m_.labels], m_.default_label))
+            return out
+
         ref, ratoms = fresh()
         ref.run(nsteps)
-        final = (np.array(ratoms.positions), np.array(ratoms.cell.array), len(ratoms), ref.step_count)
+        final = (np.array(ratoms.positions), np.array(ratoms.cell.array), len(ratoms), ref.step_count, labels_of(ref), getattr(ref.context, "number_of_exchange_particles", None), [(str(a), None if b is None else bool(b)) for a, b in ref.move_history])
         bad = []
         for k in range(0, nsteps):
             mc, atoms = fresh()
@@ -405,6 +413,7 @@ def _concrete_restart(V, driver, table, n, info, nsteps=6):
                 continue
             a2 = mc2.atoms
             same = len(a2) == final[2] and np.array_equal(np.array(a2.positions), final[0]) and np.array_equal(np.array(a2.cell.array), final[1]) and mc2.step_count == final[3]
+            same = same and labels_of(mc2) == final[4] and getattr(mc2.context, "number_of_exchange_particles", None) == final[5] and [(str(a), None if b is None else bool(b)) for a, b in mc2.move_history] == final[6]
             if not same:
                 bad.append(f"k={k}:trajectory differs")
         ok = not bad
